@@ -248,43 +248,55 @@ fn run_batch(kind: &str, lo: u64, hi: u64, threads: usize, root: &Path) -> Batch
     batch
 }
 
-/// `InflightBlocks` reads the process-global faketime clock, so two inflight runs must never
-/// overlap inside one process: the batch is split over single-threaded worker processes.
-fn run_batch_in_workers(kind: &str, lo: u64, hi: u64, workers: usize) -> BatchResult {
+/// Runs a batch in child processes and merges their exact sets.
+///
+/// * `inflight`: `InflightBlocks` reads the process-global faketime clock, so two inflight runs
+///   must never overlap inside one process: `parallel` single-threaded workers at a time.
+/// * `locator`: the per-thread nodes (RocksDB, sled files, allocator arenas) grow with the
+///   number of runs: chunks of `chunk` seeds, one multi-threaded worker process after another.
+fn run_batch_in_workers(kind: &str, lo: u64, hi: u64, parallel: usize, worker_threads: usize, chunk: Option<u64>) -> BatchResult {
     let n = hi.saturating_sub(lo);
-    let workers = (workers.max(1) as u64).min(n.max(1));
     let exe = std::env::current_exe().expect("current_exe");
-    let mut children = Vec::new();
-    for w in 0..workers {
-        let a = lo + n * w / workers;
-        let b = lo + n * (w + 1) / workers;
-        let child = std::process::Command::new(&exe)
-            .args(["batch-worker", "--kind", kind, "--seeds", &format!("{a}..{b}")])
-            .stdout(std::process::Stdio::piped())
-            .spawn()
-            .expect("spawn worker");
-        children.push(child);
-    }
+    let ranges: Vec<(u64, u64)> = match chunk {
+        Some(c) => (0..n.div_ceil(c.max(1))).map(|i| (lo + i * c, (lo + (i + 1) * c).min(hi))).collect(),
+        None => {
+            let workers = (parallel.max(1) as u64).min(n.max(1));
+            (0..workers).map(|w| (lo + n * w / workers, lo + n * (w + 1) / workers)).collect()
+        }
+    };
     let mut batch = BatchResult::new(ENGINE);
-    for child in children {
-        let out = child.wait_with_output().expect("worker output");
-        let text = String::from_utf8_lossy(&out.stdout);
-        let line = text.lines().rev().find(|l| l.trim_start().starts_with('{'));
-        match line.and_then(|l| serde_json::from_str::<WorkerOut>(l).ok()) {
-            Some(w) => {
-                let mut b = w.batch;
-                b.inter_set = w.inter.into_iter().collect::<BTreeSet<u64>>();
-                b.state_set = w.state.into_iter().collect();
-                b.nontrivial_set = w.nontrivial.into_iter().collect();
-                batch.merge(b);
+    for group in ranges.chunks(parallel.max(1)) {
+        let mut children = Vec::new();
+        for (a, b) in group {
+            let child = std::process::Command::new(&exe)
+                .args(["batch-worker", "--kind", kind, "--seeds", &format!("{a}..{b}"), "--threads", &worker_threads.to_string()])
+                .stdout(std::process::Stdio::piped())
+                .spawn()
+                .expect("spawn worker");
+            children.push(child);
+        }
+        for child in children {
+            let out = child.wait_with_output().expect("worker output");
+            let text = String::from_utf8_lossy(&out.stdout);
+            let line = text.lines().rev().find(|l| l.trim_start().starts_with('{'));
+            match line.and_then(|l| serde_json::from_str::<WorkerOut>(l).ok()) {
+                Some(w) => {
+                    let mut b = w.batch;
+                    b.inter_set = w.inter.into_iter().collect::<BTreeSet<u64>>();
+                    b.state_set = w.state.into_iter().collect();
+                    b.nontrivial_set = w.nontrivial.into_iter().collect();
+                    batch.merge(b);
+                }
+                None => batch
+                    .harness_errors
+                    .push(format!("worker exited {:?} without a result", out.status.code())),
             }
-            None => batch
-                .harness_errors
-                .push(format!("worker exited {:?} without a result", out.status.code())),
         }
     }
     batch
 }
+
+const LOCATOR_CHUNK: u64 = 40_000;
 
 fn main() {
     let args: Vec<String> = std::env::args().collect();
@@ -333,7 +345,9 @@ fn main() {
             };
             let threads: usize = arg_value(&args, "--threads").map(|s| s.parse().unwrap()).unwrap_or(16);
             let mut batch = if kind.starts_with("inflight") {
-                run_batch_in_workers(&kind, lo, hi, threads)
+                run_batch_in_workers(&kind, lo, hi, threads, 1, None)
+            } else if kind == "locator" && hi.saturating_sub(lo) > LOCATOR_CHUNK {
+                run_batch_in_workers(&kind, lo, hi, 1, threads, Some(LOCATOR_CHUNK))
             } else {
                 run_batch(&kind, lo, hi, threads, &root)
             };
@@ -343,7 +357,8 @@ fn main() {
         }
         "batch-worker" => {
             let (lo, hi) = parse_seed_range(&arg_value(&args, "--seeds").unwrap());
-            let mut batch = run_batch(&kind, lo, hi, 1, &root);
+            let threads: usize = arg_value(&args, "--threads").map(|s| s.parse().unwrap()).unwrap_or(1);
+            let mut batch = run_batch(&kind, lo, hi, threads, &root);
             batch.finish();
             let out = WorkerOut {
                 inter: batch.inter_set.iter().copied().collect(),
